@@ -11,6 +11,9 @@ int main(int c, char **v){
   else if (c >= 3 && !strcmp(v[1], "normalize")){ if (P(&a, v[2])) return 2; r = uriNormalizeSyntaxExA(&a, c > 3 ? (unsigned)atoi(v[3]) : (unsigned)-1); printf("rc=%d ", r); show("", &a); }
   else if (c >= 4 && !strcmp(v[1], "shorten")){ if (P(&a, v[2]) || P(&b, v[3])) return 2; r = uriRemoveBaseUriA(&t, &a, &b, c > 4); printf("rc=%d ", r); if (!r) show("", &t); }
   else if (c >= 4 && !strcmp(v[1], "equals")){ if (P(&a, v[2]) || P(&b, v[3])) return 2; printf("equal=%d\n", uriEqualsUriA(&a, &b)); }
+  else if (c >= 4 && !strcmp(v[1], "normres")){ UriUriA r1, r2, t1, t2; if (P(&b, v[2]) || P(&r1, v[3]) || P(&r2, v[3])) return 2;
+    uriNormalizeSyntaxA(&r1); uriAddBaseUriA(&t1, &r1, &b); uriAddBaseUriA(&t2, &r2, &b); uriNormalizeSyntaxA(&t1); uriNormalizeSyntaxA(&t2);
+    show("via normalised ref: ", &t1); show("via original ref:   ", &t2); printf("equal=%d\n", uriEqualsUriA(&t1, &t2)); }
   else return 2;
   return 0;
 }
